@@ -32,12 +32,12 @@ theorem post_assocAll (pOp : P Node) (hop : Post pOp WfN) (x : Nat) (acc : List 
 /-- The postfix loop of `parseOperand`: calls, indexes, slices and selectors of a well-formed
 operand are well-formed (an index has its index expression). -/
 theorem post_operandLoop (env : Env) (pe : P Node) (hpe : Post pe WfN) :
-    ∀ fuel first lhs, WfN lhs → Post (operandLoop env pe fuel first lhs) WfN := by
+    ∀ fuel cnt first lhs, WfN lhs → Post (operandLoop env pe fuel cnt first lhs) WfN := by
   intro fuel
   induction fuel with
-  | zero => intro _ _ _; unfold operandLoop; exact post_throw _
+  | zero => intro _ _ _ _; unfold operandLoop; exact post_throw _
   | succ fuel ih =>
-    intro first lhs hlhs
+    intro cnt first lhs hlhs
     unfold operandLoop
     post_auto
     · apply ih; wf_close
